@@ -1,4 +1,5 @@
 """C06 — SEG-Y export round trip."""
+import os
 import numpy as np
 import segyio
 
@@ -21,7 +22,7 @@ def one(ctx, rng, k):
     if kind == 'regular':
         n = (int(rng.integers(2, 8)), int(rng.integers(2, 20)), int(rng.integers(2, 30)))
     elif kind == '2d':
-        n = (1, int(rng.integers(2, 40)), int(rng.integers(2, 30)))
+        n = (1, int(rng.choice([2, 3, 15, 16, 17, 33, 64, 65, 300])) if k % 2 else int(rng.integers(2, 40)), int(rng.integers(2, 30)))
     else:
         n = (int(rng.integers(3, 8)), int(rng.integers(3, 8)), int(rng.integers(2, 20)))
     arr = gen.cube(rng, n)
@@ -30,7 +31,22 @@ def one(ctx, rng, k):
     if kind == 'irregular':
         il, xl = sorted(il), sorted(xl)
         il = [v + 1000 for v in il] if min(il) <= 0 <= max(il) else il
-        skip = {(n[0] - 1, n[1] - 1), (1, 1)}
+        # holes: last trace and an inner one; or an incomplete first inline (first trace missing); or random holes
+        pat = (k // 5) % 3
+        if pat == 0:
+            skip = {(n[0] - 1, n[1] - 1), (1, 1)}
+        elif pat == 1:
+            skip = {(0, 0), (0, 1), (n[0] - 1, 0)}
+        else:
+            cells = [(i, x) for i in range(n[0]) for x in range(n[1])]
+            skip = set(c for c in cells if rng.random() < .2)
+            for i in range(n[0]):
+                if all((i, x) in skip for x in range(n[1])):
+                    skip.discard((i, int(rng.integers(n[1]))))
+            for x in range(n[1]):
+                if all((i, x) in skip for i in range(n[0])):
+                    skip.discard((int(rng.integers(n[0])), x))
+            skip = skip or {(1, 1)}
     t0 = int(rng.choice([0, 0, 100, -200, 1500]))
     dt = int(rng.choice([4000, 2000, 1000, 500]))
     plan = mksegy.header_plan(rng, n_fields=int(rng.integers(0, 6)))
@@ -38,8 +54,9 @@ def one(ctx, rng, k):
     binf = {segyio.BinField.EnsembleFold: int(rng.choice([1, 255, 256, 300, 1000]))} if k % 3 == 0 else None
     ntr = n[0] * n[1] - (len(skip) if skip else 0)
     plan.set_final(ntr - 1)
+    ext = int([0, 0, 0, 1, 2][(k // 3) % 5])
     mksegy.make_segy(sgy, arr, ilines=il, xlines=xl, fmt=fmt, t0=t0, dt_us=dt, headers=plan, skip=skip, two_d=(kind == '2d'),
-                     binfields=binf)
+                     binfields=binf, ext_headers=ext)
     src = view.segy_view(sgy)
     if kind == '2d':
         q, bs = int(rng.choice([16, 32, 64])), None
@@ -48,7 +65,7 @@ def one(ctx, rng, k):
     mode = ['exhaustive', 'thorough', 'heuristic'][k % 3]
     via_cli = k % 4 == 3
     sgz, exp = ctx.path('e.sgz'), ctx.path('x.sgy')
-    desc = {'kind': kind, 'n': n, 'fmt': fmt, 'q': q, 'bs': bs, 'mode': mode, 'cli': via_cli, 't0': t0, 'dt_us': dt,
+    desc = {'kind': kind, 'n': n, 'fmt': fmt, 'q': q, 'bs': bs, 'mode': mode, 'cli': via_cli, 't0': t0, 'dt_us': dt, 'ext_text_headers': ext,
             'il': il[:2], 'xl': xl[:2], 'binfields': {int(a): b for a, b in (binf or {}).items()}}
     ctx.case((kind, n, fmt, q, bs, mode, via_cli, t0, dt), sample=desc)
     ctx.stats['kind_' + kind] += 1
@@ -140,23 +157,27 @@ def format_correspondence(ctx, rng, sgz, desc):
         if code is not None:
             raw[4096 + 3224: 4096 + 3226] = bytes([code >> 8, code & 255])
         b0, b1 = raw[4096 + 3224], raw[4096 + 3225]
+        e0, e1 = raw[4096 + 3504], raw[4096 + 3505]
         mod = ctx.path('fmt.sgz')
         with open(mod, 'wb') as f:
             f.write(raw)
         exp = ctx.path('fmt.sgy')
         ctx.stats['corr_requests'] += 1
-        ans = m.ask(f'export {b0} {b1}')
+        with SgzReader(mod) as r0:
+            ns_, ntr_ = r0.n_samples, r0.tracecount
+        ans = m.ask(f'export {b0} {b1} {e0} {e1} {ns_} {ntr_}')
         try:
             with SgzConverter(mod) as c:
                 env.quiet(c.convert_to_segy, exp)
             hb = open(exp, 'rb').read(3600)
             with segyio.open(exp, strict=False) as f:
                 fmt = int(f.format)
-            real = f'{fmt} {hb[3224]} {hb[3225]}'
+            # (offset of the trace after the last = the length of the exported file)
+            real = f'{fmt} {hb[3224]} {hb[3225]} {os.path.getsize(exp)}'
         except Exception as e:  # noqa
             real = f'{type(e).__name__}: {str(e)[:80]}'
         if ans != real:
-            ctx.corr_fail('Model.Export', f'export {b0} {b1}', ans, real, dict(desc, patched_code=code))
+            ctx.corr_fail('Model.Export', f'export {b0} {b1} {e0} {e1} {ns_} {ntr_}', ans, real, dict(desc, patched_code=code))
 
 
 def run(ctx):
